@@ -671,6 +671,97 @@ def gen_floatenum(rng, big):
     return {'kind': 'floatenum', 'labels': labels, 'unit': unit, 'scaled': scaled, 'hasR': hasR, 'hasW': hasW, 'ops': ops}
 
 
+# ---- the labels argument of FloatEnumParam (glue in front of the float/enum model: labels -> enum members, valuedict, range)
+def label_value(label, unit):
+    """the number the class itself derives from a label text (oracle of the model: decimal text -> float is Python's float())"""
+    from frappy.extparams import FloatEnumParam
+    from frappy.errors import ProgrammingError
+    try:
+        return float(FloatEnumParam('g', [label], unit).valuedict[0])
+    except ProgrammingError:
+        return None
+
+
+def impl_labels(case):
+    from frappy.extparams import FloatEnumParam
+    labels = [tuple(e) if isinstance(e, list) else e for e in case['labels']]
+    try:
+        p = FloatEnumParam('g', labels, case['unit'])
+    except Exception:
+        return {'ok': False}
+    return {'ok': True, 'edict': sorted([m.name, int(m.value)] for m in p.enumtype._enum.members),
+            'vdict': [[int(k), float(v)] for k, v in p.valuedict.items()], 'lo': float(p.datatype.min), 'hi': float(p.datatype.max)}
+
+
+def labels_requests(case, impl):
+    """-> (model request, canonical impl observation): all numbers scaled to integers by their common denominator"""
+    specs = []
+    for e in case['labels']:
+        if isinstance(e, str):
+            idx, label, value = None, e, None
+        elif isinstance(e[0], str):
+            idx, label, value = None, e[0], (e[1] if len(e) > 1 else None)
+        else:
+            idx, label, value = e[0], e[1], (e[2] if len(e) > 2 else None)
+        specs.append([idx, label, value, label_value(label, case['unit'])])
+    nums = [x for sp in specs for x in sp[2:] if x is not None]
+    den = 1
+    for x in nums:
+        den = max(den, Fraction(float(x)).denominator)
+
+    def sc(x):
+        f = Fraction(float(x)) * den
+        assert f.denominator == 1
+        return int(f)
+    model = {'p': 'C18', 'k': 'labels', 'specs': [[i, lab, None if v is None else sc(v), None if d is None else sc(d)]
+                                                  for i, lab, v, d in specs]}
+    canon = dict(impl)
+    if impl['ok']:
+        canon = {'ok': True, 'edict': impl['edict'], 'vdict': [[i, sc(v)] for i, v in impl['vdict']], 'lo': sc(impl['lo']),
+                 'hi': sc(impl['hi'])}
+    return model, canon
+
+
+def gen_labels(rng, big):
+    """label lists in all forms the constructor accepts - bare labels, (label,), (label, value), (index, label),
+    (index, label, value) - mostly valid; now and then an index or a label twice, a label that is no number, no labels at all"""
+    unit = rng.choice(['', 'V', 'A', 'm'])
+    n = rng.choice([0, 1, 2, 3, 3, 4, 5, 6]) if rng.random() < 0.1 else rng.randint(1, 6)
+    texts = ['1', '2', '5', '10', '20', '0.5', '2.5', '-1', '100', '50']
+    prefixes = ['', '', 'm', 'k', 'u', 'µ', 'n', 'M']
+    words = ['lo', 'hi', 'mid', 'off', 'max']
+    labels = []
+    used_idx, nextidx = set(), 0
+    for _ in range(n):
+        numeric = rng.random() < 0.7
+        label = (rng.choice(texts) + rng.choice(['', ' ']) + rng.choice(prefixes) + unit) if numeric else rng.choice(words)
+        if rng.random() < 0.85:
+            while any((lab if isinstance(lab, str) else lab[0] if isinstance(lab[0], str) else lab[1]) == label for lab in labels):
+                label += "'"
+        r = rng.random()
+        with_value = rng.random() < (0.15 if numeric else 0.93)
+        value = rng.choice([0.25, 0.5, 1.0, 1.5, 2.0, 3.0, 4.0, 8.0, -2.0, 0.0, 100.0, 1e-3, 5]) if with_value else None
+        if r < 0.45:
+            idx = None
+        else:
+            idx = rng.choice([nextidx, nextidx + 1, nextidx + rng.randint(2, 5), rng.randint(0, 8), rng.randint(-3, 8)])
+            if rng.random() < 0.9:
+                while idx in used_idx:
+                    idx += 1
+        eff = nextidx if idx is None else idx
+        used_idx.add(eff)
+        nextidx = eff + 1
+        if idx is None and value is None:
+            labels.append(label if rng.random() < 0.8 else [label])
+        elif idx is None:
+            labels.append([label, value])
+        elif value is None:
+            labels.append([idx, label])
+        else:
+            labels.append([idx, label, value])
+    return {'kind': 'labels', 'labels': labels, 'unit': unit, 'ops': []}
+
+
 def sig_floatenum(case, bad, trace):
     if bad == 0:
         return 'C18:floatenum:initial-value'
@@ -1100,6 +1191,11 @@ def prepare(case):
         case = limits_case(case)
         trace = impl_limits(case)
         return trace, wire_limits(case), judge_limits_req(case, trace), [limits_canon(case, t) for t in trace]
+    if kind == 'labels':
+        impl = impl_labels(case)
+        model, canon = labels_requests(case, impl)
+        # nothing to judge: the statement is about histories on the constructed pair; `lo - 1` never belongs to the (empty) valuedict
+        return [dict(impl, idx=0, value=0, write=None)], model, {'p': 'C18', 'k': 'judge_floatenum', 'vdict': [], 'trace': []}, [canon]
     if kind == 'control':
         trace = impl_control(case)
         ops = wire_control_ops(case)
@@ -1110,6 +1206,8 @@ def prepare(case):
 
 
 def model_obs(case, answer):
+    if case['kind'] == 'labels':
+        return [dict(answer, edict=sorted(answer['edict'])) if answer['ok'] else answer]
     states = [answer['init']] + answer['states']
     if case['kind'] == 'limits':
         return [model_limits_canon(case, s) for s in states]
@@ -1189,6 +1287,8 @@ def nontrivial(case, trace):
         return oks >= 2 and len({json.dumps(t['struct']) for t in trace}) >= 3
     if kind == 'floatenum':
         return len({t['idx'] for t in trace}) >= 2 and any(t['write'] is not None and t['ok'] for t in trace)
+    if kind == 'labels':
+        return trace[0]['ok'] and len(trace[0]['vdict']) >= 2 and any(not isinstance(e, str) for e in case['labels'])
     if kind == 'limits':
         acc = any(t['write'] is not None and t['ok'] for t in trace)
         rej = any(t['write'] is not None and not t['ok'] for t in trace)
@@ -1197,8 +1297,8 @@ def nontrivial(case, trace):
     return len({json.dumps([t['cb'], t['act']]) for t in trace}) >= 3 and fails == 0
 
 
-SAMPLES_PER_KIND = {'struct': 2, 'floatenum': 1, 'limits': 1, 'control': 2}
-GENS = {'struct': gen_struct, 'floatenum': gen_floatenum, 'limits': gen_limits, 'control': gen_control}
+SAMPLES_PER_KIND = {'struct': 2, 'floatenum': 1, 'limits': 1, 'control': 2, 'labels': 1}
+GENS = {'struct': gen_struct, 'floatenum': gen_floatenum, 'limits': gen_limits, 'control': gen_control, 'labels': gen_labels}
 
 
 def run(ctx):
@@ -1216,10 +1316,12 @@ def run(ctx):
             with open(os.path.join(cdir, fn)) as f:
                 cases.append(json.load(f)['case'])
     ncorpus = len(cases)
-    per = ctx.budget(200, 6250)
+    per = ctx.budget(500, 6250)
     for kind in ('struct', 'floatenum', 'limits', 'control'):
         for _ in range(per):
             cases.append(GENS[kind](rng, big))
+    for _ in range(per):       # glue in front of the float/enum model: correspondence only
+        cases.append(gen_labels(rng, big))
 
     shrunk = {}
     chunk = 400
@@ -1275,6 +1377,9 @@ def _run_chunk(ctx, res, cases, offset, ncorpus, shrunk):
                 res.count('struct.combined-with-own-member-methods')
         if kind == 'floatenum':
             res.count('floatenum.labels-si-scaled' if case.get('scaled') else 'floatenum.labels-catalogue')
+        if kind == 'labels':
+            res.count('labels.accepted' if trace[0]['ok'] else 'labels.refused')
+            res.count(f'labels.n-{len(case["labels"])}')
         if kind == 'limits':
             lay = limits_case(case)['layers']
             res.count(f'limits.classes-{len(lay)}')
